@@ -120,17 +120,21 @@ class Net:
     """One enumerated network: the real quimb object + the raw arrays the
     reference works on."""
 
-    def __init__(self, spec, dtype, expo, fillkey="x"):
+    def __init__(self, spec, dtype, expo, fillkey="x", scale=0.0):
         import quimb.tensor as qtn
 
         self.spec = tuple(tuple(s) for s in spec)
         self.dtype = dtype
         self.expo = float(expo)
         self.n = len(self.spec)
+        self.scale = float(scale)  # log10 of the overall data scale, shared evenly by the tensors
+        self.fillkey = fillkey
         self.raw = []
         ts = []
         for i, labs in enumerate(self.spec):
             d = fill("generic", [DIM[l] for l in labs], dtype, key=("c01", fillkey, i, labs))
+            if self.scale:
+                d = (d * 10.0 ** (self.scale / self.n)).astype(dtype)
             self.raw.append((d, labs))
             ts.append(qtn.Tensor(d.copy(), labs, tags=["T%d" % i, "G%d" % (i % 2)]))
         self.tn = qtn.TensorNetwork(ts)
@@ -180,8 +184,22 @@ class Net:
         return True
 
     def rebuild(self):
-        fresh = Net(self.spec, self.dtype, self.expo)
-        self.tn = fresh.tn
+        """Repair the SAME network object after a call changed it (callers
+        hold references to ``self.tn``): restore every tensor and the
+        exponent; if the structure itself changed, refill the object."""
+        import quimb.tensor as qtn
+
+        tn = self.tn
+        ts = tn.tensors
+        if len(ts) == self.n and all(set(t.tags) == {"T%d" % i, "G%d" % (i % 2)} for i, t in enumerate(ts)):
+            for (d, labs), t in zip(self.raw, ts):
+                t.modify(data=d.copy(), inds=labs)
+        else:
+            for tid in list(tn.tensor_map):
+                tn.pop_tensor(tid)
+            for i, (d, labs) in enumerate(self.raw):
+                tn.add_tensor(qtn.Tensor(d.copy(), labs, tags=["T%d" % i, "G%d" % (i % 2)]))
+        tn.exponent = getattr(self, "expo_set", self.expo)
 
 
 def denote_tn(tn, out):
@@ -323,6 +341,8 @@ def evaluate(acc, net, sub, entry, thunk, out, *, want=None, want_labs=None, ord
     facts = dict(facts or {})
     base = dict(entry=entry, strip="strip" in opts.split(","), expo=bool(net.expo != 0.0), hyperish=bool(net.hyperish(out)), out_given=out is not None)
     base.update(facts)
+    if getattr(net, "scale", 0.0):
+        base["data_scale"] = "tiny" if net.scale < 0 else "huge"
     try:
         got = thunk()
     except Exception as ex:
@@ -346,7 +366,9 @@ def evaluate(acc, net, sub, entry, thunk, out, *, want=None, want_labs=None, ord
         acc.violation("%s[%s] on %s out=%r: result %r cannot be read: %s" % (entry, opts, net.spec, out, type(got).__name__, str(ex)[:200]), sub, kind="unreadable", **base)
         return None
     kind = compare(labs, arr, want_labs, want, net.rtol, order_matters=(out is not None) and order, absscale=(lambda: net.absref(eff)))
-    if kind is None and not net.intact():
+    if not net.intact():
+        # the caller's network was changed by a non-inplace call: that is the
+        # root cause, whatever else the comparison says
         kind = "input-mutated"
     if kind is not None:
         diag = None
@@ -561,6 +583,18 @@ def full_entries(acc, net, out, cfg):
     ev("overlap", lambda: tn.overlap(oth.tn, **kw), want=W(ov), want_labs=(), opts="other")
     ev("overlap", lambda: tn.overlap(tn, **kw), want=W(nrm**2), want_labs=(), opts="self")
     ev("overlap", lambda: oth.tn.overlap(tn, **kw), want=W(np.conj(ov)), want_labs=(), opts="swapped")
+    # every operand-type pair: x.overlap(y) = <y, x> = vdot(y, x), the ARGUMENT is conjugated
+    # (dense single-tensor stand-ins built from the reference arrays)
+    tx = qtn.Tensor(np.array(net.ref(eff)), eff, tags="X")
+    ty = qtn.Tensor(np.array(oth.ref(eff)), eff, tags="Y")
+    fo = {"overlap_pair": True}
+    ev("Tensor.overlap(Tensor)", lambda: tx.overlap(ty), want=W(ov), want_labs=(), facts=fo)
+    ev("Tensor.overlap(Tensor)", lambda: ty.overlap(tx), want=W(np.conj(ov)), want_labs=(), opts="swapped", facts=fo)
+    ev("Tensor.overlap(TN)", lambda: tx.overlap(oth.tn, **kw), want=W(ov), want_labs=(), facts=fo)
+    ev("Tensor.overlap(TN)", lambda: ty.overlap(tn, **kw), want=W(np.conj(ov)), want_labs=(), opts="swapped", facts=fo)
+    ev("Tensor.overlap(TN)", lambda: tx.overlap(oth.tn, optimize="greedy", **kw), want=W(ov), want_labs=(), opts="greedy", facts=fo)
+    ev("TN.overlap(Tensor)", lambda: tn.overlap(ty, **kw), want=W(ov), want_labs=(), facts=fo)
+    ev("TN.overlap(Tensor)", lambda: oth.tn.overlap(tx, **kw), want=W(np.conj(ov)), want_labs=(), opts="swapped", facts=fo)
     ev("make_overlap", lambda: tn.make_overlap(oth.tn, **kw).contract(all, output_inds=()), want=W(ov), want_labs=(), opts="contract(all)")
     ev("make_overlap", lambda: tn.make_overlap(oth.tn, **kw).contract(..., output_inds=(), strip_exponent=True), want=W(ov), want_labs=(), opts="contract(...),strip")
 
@@ -642,12 +676,12 @@ _OTHER = {}
 
 
 def other_net(net):
-    k = (net.spec, net.dtype, net.expo != 0.0)
+    k = (net.spec, net.dtype, net.expo != 0.0, net.scale)
     o = _OTHER.get(k)
     if o is None or not o.intact():
         if len(_OTHER) > 64:
             _OTHER.clear()
-        o = _OTHER[k] = Net(net.spec, net.dtype, -0.75 if net.expo != 0.0 else 0.0, fillkey="other")
+        o = _OTHER[k] = Net(net.spec, net.dtype, -0.75 if net.expo != 0.0 else 0.0, fillkey="other", scale=net.scale)
     return o
 
 
@@ -689,6 +723,11 @@ def linop_entries(acc, net, out, cfg, only_split=None):
             A = mk()
         except Exception as ex:
             acc.violation("aslinearoperator(%r,%r) on %s raised %s: %s" % (l, r, net.spec, type(ex).__name__, str(ex)[:200]), sub0 + ("linop.shape|" + nm + ",",), entry="aslinearoperator", kind="exception", exc=type(ex).__name__)
+            continue
+        if not net.intact():
+            if acc.want(sub0 + ("linop.shape|" + nm + ",",)):
+                acc.violation("aslinearoperator(%r,%r) on %s exponent=%s changed the network it was built from" % (l, r, net.spec, net.expo), sub0 + ("linop.shape|" + nm + ",",), entry="aslinearoperator", kind="input-mutated", linop=True, expo=bool(net.expo != 0.0))
+            net.rebuild()
             continue
         if (A.shape != (ld, rd)) and acc.want(sub0 + ("linop.shape|" + nm + ",",)):
             acc.violation("aslinearoperator(%r,%r) on %s has shape %r, want %r" % (l, r, net.spec, A.shape, (ld, rd)), sub0 + ("linop.shape|" + nm + ",",), entry="linop.shape", kind="shape")
@@ -739,7 +778,7 @@ def cell_full(cell, common):
     """worker for table A: one (network, dtype, exponent) x all outputs"""
     only = cell.get("only")
     acc = Acc(only)
-    net = Net(cell["spec"], cell["dtype"], cell["expo"])
+    net = Net(cell["spec"], cell["dtype"], cell["expo"], scale=cell.get("scale", 0.0))
     cfg = common
     for out in output_requests(net.spec, with_reversed=cfg.get("reversed_outs", True)):
         if only is not None and repr(out) != only[1]:
@@ -747,7 +786,7 @@ def cell_full(cell, common):
         before = acc.n
         full_entries(acc, net, out, cfg)
         if acc.n > before and any(v >= 2 for v in net.freq.values()):
-            acc.nt.append(core.digest(("A", net.spec, net.dtype, net.expo, out))[:16])
+            acc.nt.append(core.digest(("A", net.spec, net.dtype, net.expo, net.scale, out))[:16])
     return acc.result()
 
 
@@ -1503,14 +1542,8 @@ def cell_extreme(cell, common):
     acc = Acc(None if hist_replay else only)
     net = Net(cell["spec"], cell["dtype"], cell["expo"])
     if cell["ekind"] == "np":
-        net.tn.exponent = np.float64(cell["expo"])
-        _rb = net.rebuild
-
-        def rebuild():
-            _rb()
-            net.tn.exponent = np.float64(cell["expo"])
-
-        net.rebuild = rebuild
+        net.expo_set = np.float64(cell["expo"])
+        net.tn.exponent = net.expo_set
     tn = net.tn
     n = net.n
     E = net.expo
@@ -1892,6 +1925,21 @@ def run(ctx):
         cells = lim(cells)
         run_cells(ctx, "cell_1d", cells, {}, "D:1D structured route", chunk=2)
         ctx.subproducts.append("D: {MPS,MPO} x L in 1..4 x bond in 1..3 x {open, cyclic (L>=3)} x dtype x exponent x {default, outer, reversed outer} output x structured entries (block sizes 1,2,3,5; every slice) complete")
+    # ---- table G ------------------------------------------------------- #
+    if only in (None, "G"):
+        # data scale: the VALUE is ~1e-15 / ~1e+15 while the stored exponent is ordinary; every comparison is
+        # relative to the magnitude of the denoted value (there is no absolute floor anywhere in the oracle)
+        scales = [-15.0, 15.0]
+        cells = []
+        for n in (1, 2, 3):
+            for spec in network_specs(n, "ab" if not thorough else ("abc" if n == 3 else "abcd")):
+                for sc in scales:
+                    for e in (0.0, 2.5):
+                        cells.append({"spec": spec, "dtype": "complex128", "expo": e, "scale": sc})
+        cells = lim(cells)
+        run_cells(ctx, "cell_full", cells, dict(cfgA, rich=False), "G:tiny / huge data scale x full-route", chunk=2)
+        ctx.bounds["data_scales_log10"] = scales
+        ctx.subproducts.append("G: every network with 1..3 tensors over %s x complex128 x exponent {0, 2.5} x overall data scale 10**%s (value ~1e-15 / ~1e+15) x every output request x every full-evaluation entry of table A complete" % ("{a,b}" if not thorough else "{a,b,c,d} (n<=2) / {a,b,c} (n=3)", scales))
     # ---- table F ------------------------------------------------------- #
     if only in (None, "F"):
         xs = [400.0, -400.0] + ([550.0, -330.0] if thorough else [])
